@@ -123,6 +123,12 @@ class DriverGen:
                 c.append("    case %d: return mh::comp_visit(v.%s(), c.arg.empty() ? -1 : std::atol(c.arg.c_str()));" % (k, f.name))
         c.append("    default: return \"ERRK\"; }")
         c.append("#endif")
+        c.append("#ifdef MSGDRV_CURSOR")
+        c.append("  if(c.op == \"crange\") switch(c.k) {")
+        for i, g in enumerate(lv.groups):
+            c.append("    case %d: return mh::cursor_range_op(v.%s(), c, %s);" % (i, g.name, "true" if is_flat(g) else "false"))
+        c.append("    default: return \"ERRK\"; }")
+        c.append("#endif")
         c.append("#ifdef MSGDRV_BYTAG")
         c.append("  if(c.op == \"getft\") switch(c.k) {")
         for k, f in enumerate(nf):
@@ -227,6 +233,7 @@ class DriverGen:
             out.append("            if(a.size() > 2) c.k = std::atoi(a[2].c_str());")
             out.append("            if(c.op == \"getcm\" || c.op == \"setcm\") { c.j = std::atoi(a[3].c_str()); if(a.size() > 5) c.arg = a[5]; }")
             out.append("            else if(c.op == \"getf\") {}")
+            out.append("            else if(c.op == \"crange\") { c.ops.assign(a.begin() + 3, a.end()); }")
             out.append("            else if(c.op == \"setf\" || c.op == \"setft\") { c.arg = a[4]; }")
             out.append("            else if(a.size() > 3) c.arg = a[3];")
             out.append("            res = %s(m, c, 0); } }" % fn)
